@@ -63,6 +63,8 @@ type GeneratorOutput struct {
 	Options   GeneratorOptions  `json:"meta"`
 	SourceMap *parser.SourceMap `json:"sourceMap"`
 	Literals  []string          `json:"literals"`
+	// CodeHash is a hash of the generated Go code, excluding the contents of the string literals.
+	CodeHash string `json:"codeHash"`
 }
 
 type GeneratorOptions struct {
@@ -103,6 +105,11 @@ func HasChanged(previous, updated GeneratorOutput) bool {
 			return true
 		}
 	}
+	// If any other generated Go code has changed (e.g. how an expression is rendered, the order of
+	// operations, constant CSS properties, script bodies), we need to recompile.
+	if previous.CodeHash != updated.CodeHash {
+		return true
+	}
 	return false
 }
 
@@ -126,6 +133,7 @@ func Generate(template parser.TemplateFile, w io.Writer, opts ...GenerateOpt) (o
 	op.Options = g.options
 	op.SourceMap = g.sourceMap
 	op.Literals = g.w.Literals
+	op.CodeHash = g.w.CodeHash()
 	return op, nil
 }
 
@@ -189,7 +197,7 @@ func (g *generator) writeVersionComment() (err error) {
 
 func (g *generator) writeGeneratedDateComment() (err error) {
 	if g.options.GeneratedDate != "" {
-		_, err = g.w.Write("// templ: generated: " + g.options.GeneratedDate + "\n")
+		_, err = g.w.WriteUnhashed("// templ: generated: " + g.options.GeneratedDate + "\n")
 	}
 	return err
 }
@@ -942,7 +950,16 @@ func (g *generator) writeExpressionErrorHandler(indentLevel int, expression pars
 	indentLevel++
 	line := int(expression.Range.To.Line + 1)
 	col := int(expression.Range.To.Col)
-	_, err = g.w.WriteIndent(indentLevel, "return	templ.Error{Err: templ_7745c5c3_Err, FileName: "+createGoString(g.options.FileName)+", Line: "+strconv.Itoa(line)+", Col: "+strconv.Itoa(col)+"}\n")
+	_, err = g.w.WriteIndent(indentLevel, "return	templ.Error{Err: templ_7745c5c3_Err, FileName: "+createGoString(g.options.FileName)+", ")
+	if err != nil {
+		return err
+	}
+	// The position of the expression changes when text before it is edited, which doesn't require a recompilation.
+	_, err = g.w.WriteUnhashed("Line: " + strconv.Itoa(line) + ", Col: " + strconv.Itoa(col))
+	if err != nil {
+		return err
+	}
+	_, err = g.w.Write("}\n")
 	if err != nil {
 		return err
 	}
